@@ -149,7 +149,16 @@ def arith_texts(draw: Any) -> Tuple[str, str]:
         name = "K" + "ABCDE"[i]
         lines.append(f"const {name} = {e}")
         names.append(name)
-    if draw(st.booleans()):
+    # the computed values are then USED where the compiler validates them: a negative, zero or astronomically large
+    # capacity, option value, size limit must be refused as a parser error like any other bad value
+    use = draw(st.integers(0, 4))
+    if use == 1:
+        lines += ["", f"option c.struct_packing_alignment = {draw(st.sampled_from(names))}"]
+    if use == 2:
+        lines += ["", "message L {", f"    option max_bytes = {draw(st.sampled_from(names))}", "    uint3 x = 1", "}"]
+    if use == 3:
+        lines += ["", f"type T = uint7[{draw(st.sampled_from(names))}]"]
+    if use == 4 or draw(st.booleans()):
         lines += ["", "message M {", f"    byte[{draw(st.sampled_from(names))}] data = 1", "}"]
     return "\n".join(lines) + "\n", "arith"
 
